@@ -2,7 +2,7 @@ SPECIFICATION Spec
 CONSTANTS
   VCodec = "hevc"
   ACodec = "aac"
-  MaxPub = 10
+  MaxPub = 9
   MaxVer = 3
   VKinds <- HevcAll
   DtPool <- Dt5
